@@ -130,7 +130,7 @@ Inductive spc :=
 | SIdle | SInit
 | SFactory | SFacChk | SImplSub | SImplSubChk | SSubFailClose
 | SInstall | SInstall2
-| SRecv (i : nat) | SItem (i : nat) | SDeliver (i j n : nat) | SSyncEnd
+| SRecv (i : nat) | SItem (i : nat) | SDeliver (i j n : nat) | SSyncEnd (i : nat)
 | SChk (i : nat) | SRunClose
 | SDisc | SCtxChk | SSleep | SReset
 | SDone | SRet (r : rcls) | SFin.
@@ -230,12 +230,12 @@ Section Model.
             if cancelled s || s_curcl s then [(None, set_spc SRunClose s)] else []
         | None =>
             if s_conn s then [(Some ESync, end_attempt false s)]
-            else [(Some EConn, set_spc SSyncEnd (set_conn true s))]
+            else [(Some EConn, set_spc (SSyncEnd i) (set_conn true s))]
         end
     | SDeliver i j n =>
         if Nat.ltb j n then [(Some (EUpd k i j), set_spc (SDeliver i (S j) n) s)]
         else [(None, set_spc (SChk i) s)]
-    | SSyncEnd => [(Some ESync, end_attempt false s)]
+    | SSyncEnd _ => [(Some ESync, end_attempt false s)]
     | SChk i =>
         (* c.mu.RLock(); closed := c.closed; c.mu.RUnlock(); if closed { return nil } *)
         if b_mu s then []
